@@ -19,7 +19,7 @@ func init() {
 }
 
 func rulePART1(p *Prog) *RuleResult {
-	res := newResult("PART1", ruleDoc["PART1"], 5)
+	res := newResult("PART1", ruleDoc["PART1"], 3)
 	fns := append([]*ssa.Function(nil), p.sourceFns()...)
 	sort.Slice(fns, func(i, j int) bool { return fname(fns[i]) < fname(fns[j]) })
 	callName := func(c *ssa.CallCommon) string {
